@@ -137,14 +137,17 @@ impl PieceType for Pawn {
             let rank = board.turn.enpassant_pawn_rank();
             let files = chess_lookup::ADJACENT_FILES[ep_file];
             let dest_rank = board.turn.enpassant_capture_rank();
-            let dest = BitBoard::from(Pos::new(ep_file, dest_rank));
+            let dest = BitBoard::from(Pos::new(ep_file, dest_rank)) & mask;
             let capture_pawn = Pos::new(ep_file, rank);
 
             // if the opponent's pawn is checking the king (and the only piece checking the king)
             // or if the there is no check and the opponent's pawn doesn't block a check against our king
             // then we can capture it via en-passant with any unpinned pawn on the same rank and adjacent file as the
             // opponent's pawn
-            if check_mask.contains(capture_pawn) && !board.pinned.contains(capture_pawn) {
+            if dest.any()
+                && check_mask.contains(capture_pawn)
+                && !board.pinned.contains(capture_pawn)
+            {
                 for src in BitBoard::from(rank) & files & pieces & !board.pinned {
                     unsafe {
                         movelist.push_unchecked(LegalMovesAt {
@@ -257,7 +260,7 @@ impl King {
                         .iter()
                         .all(|dest| board.is_legal_king_position(dest))
                     {
-                        moves ^= castle_tiles & chess_lookup::CASTLE_MOVES
+                        moves ^= castle_tiles & chess_lookup::CASTLE_MOVES & mask
                     }
                 }
             }
